@@ -35,8 +35,9 @@ var (
 // will return its URL. If it does not, it will search the search for any files
 // at the given URL with any of the default Taskfile files names. If any of
 // these match a file, the first matching path will be returned. If no files are
-// found, an error will be returned.
-func RemoteExists(ctx context.Context, u *url.URL) (*url.URL, error) {
+// found, an error will be returned. All requests are made with the given
+// client, so that its redirect policy applies to them.
+func RemoteExists(ctx context.Context, client *http.Client, u *url.URL) (*url.URL, error) {
 	// Create a new HEAD request for the given URL to check if the resource exists
 	req, err := http.NewRequestWithContext(ctx, "HEAD", u.String(), nil)
 	if err != nil {
@@ -44,10 +45,13 @@ func RemoteExists(ctx context.Context, u *url.URL) (*url.URL, error) {
 	}
 
 	// Request the given URL
-	resp, err := http.DefaultClient.Do(req)
+	resp, err := client.Do(req)
 	if err != nil {
 		if ctx.Err() != nil {
 			return nil, fmt.Errorf("checking remote file: %w", ctx.Err())
+		}
+		if notSecure := (&errors.TaskfileNotSecureError{}); errors.As(err, &notSecure) {
+			return nil, notSecure
 		}
 		return nil, errors.TaskfileFetchFailedError{URI: u.String()}
 	}
@@ -76,8 +80,11 @@ func RemoteExists(ctx context.Context, u *url.URL) (*url.URL, error) {
 		req.URL = alt
 
 		// Try the alternative URL
-		resp, err = http.DefaultClient.Do(req)
+		resp, err = client.Do(req)
 		if err != nil {
+			if notSecure := (&errors.TaskfileNotSecureError{}); errors.As(err, &notSecure) {
+				return nil, notSecure
+			}
 			return nil, errors.TaskfileFetchFailedError{URI: u.String()}
 		}
 		defer resp.Body.Close()
